@@ -112,11 +112,12 @@ const (
 	kObsCounter
 	kObsUpDown
 	kObsGauge
+	kExpo // Histogram instrument with a base-2 exponential view (MaxScale 0)
 )
 
-var kindNames = []string{"KCounter", "KUpDown", "KH", "KGauge", "KObsCounter", "KObsUpDown", "KObsGauge"}
+var kindNames = []string{"KCounter", "KUpDown", "KH", "KGauge", "KObsCounter", "KObsUpDown", "KObsGauge", "KE"}
 
-func (k ikind) async() bool { return k >= kObsCounter }
+func (k ikind) async() bool { return k >= kObsCounter && k <= kObsGauge }
 
 type instr struct {
 	kind   ikind
@@ -154,6 +155,12 @@ func (in *instr) coqKind() string {
 		}
 		return vgen.App("KH", vgen.List(bs))
 	}
+	if in.kind == kExpo {
+		if in.float {
+			return "(KE 1024)"
+		}
+		return "(KE 1)"
+	}
 	return kindNames[in.kind]
 }
 
@@ -174,7 +181,7 @@ func (in *instr) record(ctx context.Context, v int64, attrs []attribute.KeyValue
 		} else {
 			in.iu.Add(ctx, v, opt)
 		}
-	case kHist:
+	case kHist, kExpo:
 		if in.float {
 			in.fh.Record(ctx, fv, opt)
 		} else {
@@ -318,6 +325,18 @@ func (rn *runner) extract(rm *metricdata.ResourceMetrics, want metricdata.Tempor
 					}
 					put(p.Attributes, vec)
 				}
+			case metricdata.ExponentialHistogram[int64]:
+				temp = d.Temporality
+				for _, p := range d.DataPoints {
+					stamp(p.StartTime, p.Time)
+					put(p.Attributes, expoVec(p.Sum, p.Count, p.ZeroCount, p.Scale, p.PositiveBucket, p.NegativeBucket, bad))
+				}
+			case metricdata.ExponentialHistogram[float64]:
+				temp = d.Temporality
+				for _, p := range d.DataPoints {
+					stamp(p.StartTime, p.Time)
+					put(p.Attributes, expoVec(fl(p.Sum), p.Count, p.ZeroCount, p.Scale, p.PositiveBucket, p.NegativeBucket, bad))
+				}
 			default:
 				bad(fmt.Sprintf("unexpected aggregation %T", m.Data))
 			}
@@ -330,6 +349,32 @@ func (rn *runner) extract(rm *metricdata.ResourceMetrics, want metricdata.Tempor
 		}
 	}
 	return out
+}
+
+// expoVec renders an exponential data point as [sum; count; zero count; negative count; bucket 0..23].
+// The harness keeps every magnitude within 2..2^23 with MaxSize 160, so the scale must stay 0.
+func expoVec(sum int64, count, zero uint64, scale int32, pos, neg metricdata.ExponentialBucket, bad func(string)) []int64 {
+	if scale != 0 {
+		bad(fmt.Sprintf("exponential histogram scale moved to %d although all values fit at scale 0", scale))
+	}
+	var negTotal int64
+	for _, c := range neg.Counts {
+		negTotal += int64(c)
+	}
+	vec := []int64{sum, int64(count), int64(zero), negTotal}
+	dense := make([]int64, 24)
+	for j, c := range pos.Counts {
+		idx := int(pos.Offset) + j
+		if c == 0 {
+			continue
+		}
+		if idx < 0 || idx >= 24 {
+			bad(fmt.Sprintf("exponential bucket index %d outside the range of the recorded values", idx))
+			continue
+		}
+		dense[idx] = int64(c)
+	}
+	return append(vec, dense...)
 }
 
 func kvsDesc(kvs []kv) string { return canon(kvs) }
@@ -373,6 +418,25 @@ func genValue(r *vgen.Rand, in *instr) int64 {
 			v = lo - span/2 + int64(r.Intn(int(2*span)))
 		}
 		return v
+	case kExpo:
+		// whole numbers: 0, exact powers of two, neighbours of powers of two, arbitrary; sometimes negative
+		switch r.Intn(6) {
+		case 0:
+			v = 0
+		case 1, 2:
+			v = int64(1) << uint(r.Range(1, 22))
+		case 3:
+			v = int64(1)<<uint(r.Range(2, 22)) + int64(r.Range(-1, 1))
+		default:
+			v = int64(r.Range(2, 1<<20))
+		}
+		if r.Chance(1, 6) {
+			v = -v
+		}
+		if in.float {
+			v *= scale
+		}
+		return v
 	case kCounter, kObsCounter:
 		v = int64(r.Intn(50))
 	default:
@@ -402,11 +466,11 @@ func (rn *runner) history(seedDesc string, nOps int) {
 	nInst := r.Range(1, 7)
 	kinds := make([]ikind, nInst)
 	for i := range kinds {
-		kinds[i] = ikind(r.Intn(7))
+		kinds[i] = ikind(r.Intn(8))
 	}
 	if r.Chance(1, 3) { // make sure every kind shows up regularly
-		kinds = []ikind{kCounter, kUpDown, kHist, kGauge, kObsCounter, kObsUpDown, kObsGauge}
-		nInst = 7
+		kinds = []ikind{kCounter, kUpDown, kHist, kGauge, kObsCounter, kObsUpDown, kObsGauge, kExpo}
+		nInst = 8
 	}
 	// attribute sets of this history: 0-6 sets out of the pool (the empty set included)
 	nSets := r.Range(1, 6)
@@ -453,11 +517,18 @@ func (rn *runner) history(seedDesc string, nOps int) {
 	cumR := sdk.NewManualReader(sdk.WithTemporalitySelector(allCum))
 	deltaFirst := r.Bool()
 	var mp *sdk.MeterProvider
-	if deltaFirst {
-		mp = sdk.NewMeterProvider(sdk.WithReader(deltaR), sdk.WithReader(cumR))
-	} else {
-		mp = sdk.NewMeterProvider(sdk.WithReader(cumR), sdk.WithReader(deltaR))
+	popts := []sdk.Option{sdk.WithReader(deltaR), sdk.WithReader(cumR)}
+	if !deltaFirst {
+		popts = []sdk.Option{sdk.WithReader(cumR), sdk.WithReader(deltaR)}
 	}
+	for i, k := range kinds {
+		if k == kExpo {
+			popts = append(popts, sdk.WithView(sdk.NewView(
+				sdk.Instrument{Name: fmt.Sprintf("i%d", i)},
+				sdk.Stream{Aggregation: sdk.AggregationBase2ExponentialHistogram{MaxSize: 160, MaxScale: 0}})))
+		}
+	}
+	mp = sdk.NewMeterProvider(popts...)
 	ctx := context.Background()
 	defer mp.Shutdown(ctx)
 	meter := mp.Meter("verif/c08")
@@ -498,6 +569,12 @@ func (rn *runner) history(seedDesc string, nOps int) {
 				in.fh, err = meter.Float64Histogram(in.name, metric.WithExplicitBucketBoundaries(fb...))
 			} else {
 				in.ih, err = meter.Int64Histogram(in.name, metric.WithExplicitBucketBoundaries(fb...))
+			}
+		case kExpo:
+			if in.float {
+				in.fh, err = meter.Float64Histogram(in.name)
+			} else {
+				in.ih, err = meter.Int64Histogram(in.name)
 			}
 		case kGauge:
 			if in.float {
@@ -769,7 +846,7 @@ func main() {
 	otel.SetErrorHandler(otel.ErrorHandlerFunc(func(error) {}))
 	r := vgen.NewRand(o.Seed)
 	w := vgen.NewWriter(o.Out, "Lib.MetricsModel C08.Spec C08.Model C08.Corr", "case", 160)
-	w.Rule = "random histories (measure / register callback / unregister / collect-with-script) over 1-7 instruments of the 7 kinds (int64 and float64, float values multiples of 2^-10), 1-6 attribute sets, observed through a delta and a cumulative ManualReader on one provider; " +
+	w.Rule = "random histories (measure / register callback / unregister / collect-with-script) over 1-8 instruments of the 8 kinds (counter, up-down counter, explicit histogram, gauge, the three observables, histogram with a base-2 exponential view at scale 0) (int64 and float64, float values multiples of 2^-10), 1-6 attribute sets, observed through a delta and a cumulative ManualReader on one provider; " +
 		"a case is non-trivial when at least two collections happened and at least one data point was reported; distinct = distinct Coq case terms; timestamps enter only as dense ranks (order/equality)"
 	rn := &runner{w: w, r: r}
 	n := o.Count(360, 6000)
